@@ -19,3 +19,11 @@ package flight
 //@ trusted
 //@ ensures messages-decoded: DECODED(result.Messages, handshake.TypeHelloVerifyRequest) && DECODED(result.Messages, handshake.TypeServerHello)
 //@ end
+
+// server_name offer: the configured name unless it is an IP address literal (then nothing is offered).
+//@ func SNIServerName
+//@ watch net.ParseIP
+//@ ensures ip-literal-not-offered: called("net.ParseIP") && len(retAs("net.ParseIP", 0, net.IP{})) != 0 ==> result == ""
+//@ ensures name-offered-unaltered: called("net.ParseIP") && retAs("net.ParseIP", 0, net.IP{}) == nil ==> result == serverName
+//@ ensures parsed-the-name: called("net.ParseIP") && argAs("net.ParseIP", 0, serverName) == serverName
+//@ end
